@@ -3,9 +3,10 @@ NEXT NNext
 CONSTANTS
   Mode = "pairs"
   Depth = 1
+  NFixed = {}
   NBug = "none"
   NVSpace = "tiny"
   NCompoundV = "none"
-  NKinds = {"isinstance", "truthy", "typeis"}
+  NKinds = {"isinstance", "truthy", "typeis", "c_isinstance"}
 INVARIANT InvN1Strict
 CHECK_DEADLOCK FALSE
